@@ -34,12 +34,14 @@ ValidInput(r) ==
 
 HasAlloc(cfgname) == \E k \in 1..(Len(cfgname) - 4) : SubSeq(cfgname, k, k + 4) = "alloc"
 
-\* all outputs of one record judged against the oracle
+\* all outputs of one record judged against the oracle (each distinct bit pattern once)
 Judgements(r) ==
   LET F == FmtOf(r)
       dv == DecVal(r.int, r.frac, r.exp)
+      distinct == {r.outs[k].bits : k \in {k \in 1..Len(r.outs) : r.outs[k].kind = "value"}}
+      verdictOf == [b \in distinct |-> Judge(F, b, dv)]
   IN [k \in 1..Len(r.outs) |->
-        IF r.outs[k].kind # "value" THEN "skip" ELSE Judge(F, r.outs[k].bits, dv)]
+        IF r.outs[k].kind # "value" THEN "skip" ELSE verdictOf[r.outs[k].bits]]
 
 Init == i \in 1..N /\ pc = "start" /\ verdict = "none" /\ trail = <<>> /\ ml = <<MLInit, MLInit>>
 
